@@ -236,6 +236,12 @@ func init() {
 		mutant{Name: "branch-on-bool-value-inverted", Prop: "C01", File: "interp/run.go", Old: "\t\tif value(f).Bool() {\n\t\t\treturn tnext\n\t\t}\n\t\treturn fnext\n", New: "\t\tif value(f).Bool() {\n\t\t\treturn fnext\n\t\t}\n\t\treturn tnext\n", Rule: "R01.12", Key: "branch/branch-polarity"},
 		mutant{Name: "callbin-branch-result-inverted", Prop: "C01", File: "interp/run.go", Old: "\t\t\tif b {\n\t\t\t\treturn tnext\n\t\t\t}\n\t\t\treturn fnext\n", New: "\t\t\tif !b {\n\t\t\t\treturn tnext\n\t\t\t}\n\t\t\treturn fnext\n", Rule: "R01.12", Key: "callBin/branch-polarity"},
 		mutant{Name: "benign-branch-written-negatively", Prop: "C01", File: "interp/run.go", Old: "\t\tif value(f).Bool() {\n\t\t\treturn tnext\n\t\t}\n\t\treturn fnext\n", New: "\t\tif !value(f).Bool() {\n\t\t\treturn fnext\n\t\t}\n\t\treturn tnext\n", Benign: true},
+		mutant{Name: "named-types-assignable-de-morgan-slip", Prop: "C12", File: "interp/type.go", Old: "\tif t.cat == linkedT && o.cat == linkedT && (t.underlying().id() != o.underlying().id() || !typeDefined(t, o)) {\n\t\treturn false\n\t}\n", New: "\tif t.cat == linkedT && o.cat == linkedT {\n\t\tif t.underlying().id() != o.underlying().id() && !typeDefined(t, o) {\n\t\t\treturn false\n\t\t}\n\t}\n", Rule: "R12.7", Key: "assignableTo/named-types/not-defined-from-each-other"},
+		mutant{Name: "named-types-assignable-when-same-underlying", Prop: "C12", File: "interp/type.go", Old: "\tif t.cat == linkedT && o.cat == linkedT && (t.underlying().id() != o.underlying().id() || !typeDefined(t, o)) {\n\t\treturn false\n\t}\n", New: "\tif t.cat == linkedT && o.cat == linkedT && t.underlying().id() != o.underlying().id() {\n\t\treturn false\n\t}\n", Rule: "R12.7", Key: "assignableTo/named-types/not-defined-from-each-other"},
+		mutant{Name: "benign-named-types-rule-as-nested-ifs", Prop: "C12", File: "interp/type.go", Old: "\tif t.cat == linkedT && o.cat == linkedT && (t.underlying().id() != o.underlying().id() || !typeDefined(t, o)) {\n\t\treturn false\n\t}\n", New: "\tif t.cat == linkedT && o.cat == linkedT {\n\t\tif t.underlying().id() != o.underlying().id() {\n\t\t\treturn false\n\t\t}\n\t\tif !typeDefined(t, o) {\n\t\t\treturn false\n\t\t}\n\t}\n", Benign: true},
+		mutant{Name: "array-deref-looks-through-pointers-to-slices", Prop: "C12", File: "interp/typecheck.go", Old: "\tif typ.cat == valueT && typ.TypeOf().Kind() == reflect.Ptr {\n\t\tt := typ.TypeOf()\n\t\tif t.Elem().Kind() == reflect.Array {\n\t\t\treturn valueTOf(t.Elem())\n\t\t}\n\t\treturn typ\n\t}\n\n\tif typ.cat == ptrT && typ.val.cat == arrayT {\n\t\treturn typ.val\n\t}\n\treturn typ\n", New: "\tif isPtr(typ) && isArray(typ.elem()) {\n\t\treturn typ.elem()\n\t}\n\treturn typ\n", Rule: "R12.8", Key: "arrayDeref/only-pointers-to-arrays"},
+		mutant{Name: "cap-accepted-on-maps", Prop: "C12", File: "interp/typecheck.go", Old: "\t\tcase reflect.Array, reflect.Slice, reflect.Chan:\n\t\t\tok = true\n\t\tcase reflect.String, reflect.Map:\n", New: "\t\tcase reflect.Array, reflect.Slice, reflect.Chan, reflect.Map:\n\t\t\tok = true\n\t\tcase reflect.String:\n", Rule: "R12.8", Key: "builtin/len-cap/argument-kinds"},
+		mutant{Name: "benign-array-deref-cases-swapped", Prop: "C12", File: "interp/typecheck.go", Old: "\tif typ.cat == ptrT && typ.val.cat == arrayT {\n\t\treturn typ.val\n\t}\n\treturn typ\n", New: "\tif typ.cat != ptrT || typ.val.cat != arrayT {\n\t\treturn typ\n\t}\n\treturn typ.val\n", Benign: true},
 		// ---- C18
 		mutant{Name: "var-bound-by-value-in-generator", Prop: "C18", File: "extract/extract.go", Old: "\t\t\tval[name] = Val{pname, true}", New: "\t\t\tval[name] = Val{pname, false}", Rule: "R18.2", Key: "genContent/addr-only-for-vars"},
 		mutant{Name: "template-forwards-wrong-field", Prop: "C18", File: "extract/extract.go", Old: "\t\t\t{{- $m.Ret}} W.W{{$m.Name}}{{$m.Arg -}}", New: "\t\t\t{{- $m.Ret}} W.{{$m.Name}}{{$m.Arg -}}", Rule: "R18.3", Key: "model/wrapper-method"},
